@@ -42,7 +42,7 @@ PREFIT = [0, 3]  # training set of the classifier in the "prefit" configurations
 
 def bounds(tier):
     q = tier == "quick"
-    return {"wrapped": ["ParzenWindowClassifier", "SklearnClassifier(GaussianNB)"], "flags": "all 8 combinations of use_speed_up x enforce_unique_samples x "
+    return {"wrapped": ["ParzenWindowClassifier", "ParzenWindowClassifier(gamma='mean')", "SklearnClassifier(GaussianNB)"], "flags": "all 8 combinations of use_speed_up x enforce_unique_samples x "
             "ignore_partial_fit (speed-up only for PWC)", "weights": [False, True], "index_sets": [list(i) for i in (IDX_MENU if not q else IDX_MENU[:6])],
             "label_overrides": ["None", "all 1", "all 0"] if not q else ["None", "all 1"], "sample_weight_overrides": "None; constant 3.0 (configurations with weights)", "depth": 3, "depth_note": "quick: the third level uses a reduced menu (index sets [0],[1,2], stored labels, all flag combinations); prefit configurations (classifier fitted on samples [0,3] and stored as base model in __init__) use index sets [1],[2],[3],[0,1] in the quick tier",
             "max_states": 6000 if q else 40000}
@@ -56,6 +56,9 @@ def configs():
                 for ign in ((True,) if clf == "pwc" else (False, True)):
                     for wts in (False, True):
                         out.append({"clf": clf, "speed": speed, "uniq": uniq, "ign": ign, "wts": wts})
+    # Parzen window classifier whose bandwidth is resolved from the training data at every fit (gamma='mean')
+    for uniq in (False, True):
+        out.append({"clf": "pwcmean", "speed": False, "uniq": uniq, "ign": True, "wts": False})
     # wrapper built around an already fitted classifier that is also stored as base model (`set_base_clf=True` in __init__); only with a
     # native partial_fit (otherwise the wrapper documents that it cannot continue from a model whose training data it does not know)
     for uniq in (False, True):
@@ -73,6 +76,10 @@ def make_clf(name):
         from skactiveml.classifier import ParzenWindowClassifier
 
         return ParzenWindowClassifier(classes=[0, 1], metric_dict={"gamma": 0.5}, random_state=0)
+    if name == "pwcmean":
+        from skactiveml.classifier import ParzenWindowClassifier
+
+        return ParzenWindowClassifier(classes=[0, 1], metric_dict={"gamma": "mean"}, random_state=0)
     from sklearn.naive_bayes import GaussianNB
 
     from skactiveml.classifier import SklearnClassifier
